@@ -193,16 +193,25 @@ def run(tier, seed):
     cases, g = b3.gen_cases("VerbsRestructureGen", consts, timeout=6000)
     states += g.distinct
     transitions += g.generated
-    runs = []
-    for k, x in enumerate(cases):
+    # one mlr process per case; cases with a wide record (the record's ordered map builds a hashed index at 12 fields)
+    # are run three times: default, --hash-records, --no-hash-records
+    generated = cases
+    cases, runs = [], []
+    for k, x in enumerate(generated):
         flags = []
         if (k + seed) % 5 == 0:
             flags = ["--records-per-batch", "1"]
         elif (k + seed) % 5 == 1:
             flags = ["--records-per-batch", "2"]
-        runs.append({"argv": [mlr] + flags + argv_of(x["c"]), "stdin": b3.dkvp(to_text_stream(x["s"])),
-                     "timeout_ms": 10000})
-    vlib.log("[c12] %d cases generated, %.0fs" % (len(cases), time.time() - t0))
+        wide = any(len(rec) >= 11 for rec in x["s"])
+        for mode in ([[], ["--hash-records"], ["--no-hash-records"]] if wide else [[]]):
+            cases.append(x)
+            verbs = []
+            for part in x["parts"]:          # one verb, or the two of a chain joined by `then`
+                verbs += (["then"] if verbs else []) + argv_of(part)
+            runs.append({"argv": [mlr] + flags + mode + verbs, "stdin": b3.dkvp(to_text_stream(x["s"])),
+                         "timeout_ms": 10000})
+    vlib.log("[c12] %d cases generated, %d runs, %.0fs" % (len(generated), len(runs), time.time() - t0))
     res = vlib.run_cases(runs)
     vlib.log("[c12] cases run, %.0fs" % (time.time() - t0))
     vlib.confirm_timeouts(runs, res)
@@ -229,11 +238,13 @@ def run(tier, seed):
     cov["obs_sensitivity"] = sensitivity(obs, badset)
     nontrivial = {json.dumps(o, sort_keys=True) for o in obs if o["out"] != o["s"] and o["out"]}
     per_verb = {}
-    for x in cases:
+    for x in generated:
         per_verb[x["c"]["v"]] = per_verb.get(x["c"]["v"], 0) + 1
     cov["samples"] += [{"argv": runs[i]["argv"][1:], "input": runs[i]["stdin"], "output": res[i]["stdout"]}
                        for i in (len(runs) // 7, len(runs) // 2, len(runs) - 5)]
-    nconf = len({json.dumps(x["c"], sort_keys=True) for x in cases})
+    nconf = len({json.dumps(x["c"], sort_keys=True) for x in generated})
+    cov["cases_generated"] = len(generated)
+    cov["wide_record_cases"] = (len(runs) - len(generated)) // 2
     cov.update({
         "states": states, "transitions": transitions, "traces_validated_against_impl": len(runs),
         "evaluations": len(runs), "distinct_nontrivial": len(nontrivial),
